@@ -28,6 +28,7 @@ class Contract:
     is_property: bool = False
     terminates: str | None = None    # decreases expression for recursive functions
     replay: object = None            # callable(model_inputs) -> dict describing native outcome
+    ghost_updates: dict = field(default_factory=dict)   # ghost lvalue -> expr, executed as ghost code at normal exit
 
 
 @dataclass
@@ -142,6 +143,19 @@ def type_alias(name, tstr):
 
 def exception(name, base="Exception"):
     REG.exceptions[name] = base
+
+
+def global_var(key, tstr):
+    """Declare the type of a module-level global (key = 'module.name')."""
+    if not hasattr(REG, "global_types"):
+        REG.global_types = {}
+    REG.global_types[key] = tstr
+
+
+def auto_inline(*targets):
+    if not hasattr(REG, "auto_inline"):
+        REG.auto_inline = set()
+    REG.auto_inline.update(targets)
 
 
 def assumption(text):
